@@ -57,6 +57,35 @@ pub fn raw_hash(kind: u64, k: u64) -> u64 {
 pub fn show_ref(r: Ref) -> String {
     format!("{}:{}", r.index(), if r.is_negated() { 1 } else { 0 })
 }
+fn with_blame(b: Option<&'static str>, mut v: Vec<&'static str>) -> Vec<&'static str> {
+    if let Some(p) = b {
+        if !v.contains(&p) {
+            v.push(p);
+        }
+    }
+    v
+}
+/// the property that states what this operation must produce
+pub fn op_property(op: &str) -> Option<&'static str> {
+    Some(match op {
+        "var" | "node" | "cube" | "clause" => "C15",
+        "ite" => "C02",
+        "and" | "or" | "xor" | "eq" | "imply" | "andmany" | "ormany" | "expr" | "exprc" | "not" => "C03",
+        "subst" | "substm" | "cofcube" => "C08",
+        "compose" => "C09",
+        "constrain" => "C10",
+        "restrict" => "C11",
+        "gc" => "C05",
+        _ => return None,
+    })
+}
+pub fn show_key(k: &OpKey) -> String {
+    match k {
+        OpKey::Ite(f, g, h) => format!("I{},{},{}", raw_of(*f), raw_of(*g), raw_of(*h)),
+        OpKey::Constrain(f, g) => format!("C{},{}", raw_of(*f), raw_of(*g)),
+        OpKey::Restrict(f, g) => format!("R{},{}", raw_of(*f), raw_of(*g)),
+    }
+}
 pub fn raw_of(r: Ref) -> u64 {
     ((r.index() as u64) << 1) | (r.is_negated() as u64)
 }
@@ -176,6 +205,10 @@ pub struct Exec {
     pub cache: Cache<(u64, u64), u64>,
     cache_shadow: HashMap<usize, ((u64, u64), u64)>,
     cache_lookups: usize,
+    kcache: Cache<OpKey, Ref>,
+    kcache_shadow: HashMap<usize, ((u8, u32, u32, u32), u32)>,
+    kcache_lookups: usize,
+    scan_op: Option<&'static str>,
     pub raw: RawTable<(u64, u64)>,
     pub raw_kind: u64,
     raw_shadow: HashMap<u64, u64>,
@@ -222,6 +255,10 @@ impl Exec {
             cache: Cache::new(0),
             cache_shadow: HashMap::new(),
             cache_lookups: 0,
+            kcache: Cache::new(0),
+            kcache_shadow: HashMap::new(),
+            kcache_lookups: 0,
+            scan_op: None,
             raw: RawTable::new(),
             raw_kind: 0,
             raw_shadow: HashMap::new(),
@@ -377,14 +414,15 @@ impl Exec {
         }
         let n = *st.cell_value(i);
         drop(st);
-        if n.variable == 0 || n.variable > tt.n {
-            return Err(format!("cell {} has variable {} outside 1..={}", i, n.variable, tt.n));
-        }
+        let pv = match tt.pos(n.variable) {
+            Some(p) => p,
+            None => return Err(format!("cell {} has variable {} outside the {} variables in use", i, n.variable, tt.n)),
+        };
         let lo = self.walk_idx(n.low.index() as usize, tt, memo, depth + 1)?;
         let lo = if n.low.is_negated() { tt.not(lo) } else { lo };
         let hi = self.walk_idx(n.high.index() as usize, tt, memo, depth + 1)?;
         let hi = if n.high.is_negated() { tt.not(hi) } else { hi };
-        let t = tt.ite(tt.var(n.variable), hi, lo);
+        let t = tt.ite(tt.var(pv), hi, lo);
         memo.insert(i, t);
         Ok(t)
     }
@@ -557,11 +595,11 @@ impl Exec {
         seen
     }
 
-    fn top_var_of(&self, r: Ref) -> u32 {
+    pub fn top_var_of(&self, r: Ref) -> u64 {
         if r.index() == 1 {
-            u32::MAX
+            u64::MAX
         } else {
-            self.bdd().variable(r.index())
+            self.bdd().variable(r.index()) as u64
         }
     }
 
@@ -712,6 +750,9 @@ impl Exec {
     /// C04 / C06 / C17 / C07: scan the whole store and both caches
     pub fn scan(&mut self, after_gc: bool) {
         let mut fails: Vec<(Vec<&'static str>, String)> = vec![];
+        // the structure was clean before the operation just run (scans after every step): a broken
+        // node invariant is that operation's doing
+        let blame = self.scan_op;
         {
             let bdd = self.bdd();
             let st = bdd.storage();
@@ -744,13 +785,13 @@ impl Exec {
             for &i in occupied.iter().filter(|&&i| i >= 2) {
                 let n = st.cell_value(i);
                 if n.variable == 0 {
-                    fails.push((vec!["C04"], format!("cell {} has variable 0", i)));
+                    fails.push((with_blame(blame, vec!["C04"]), format!("cell {} has variable 0", i)));
                 }
                 if n.high.is_negated() {
-                    fails.push((vec!["C04"], format!("cell {} has a complemented then-edge", i)));
+                    fails.push((with_blame(blame, vec!["C04"]), format!("cell {} has a complemented then-edge", i)));
                 }
                 if n.low == n.high {
-                    fails.push((vec!["C04"], format!("cell {} is redundant (low == high)", i)));
+                    fails.push((with_blame(blame, vec!["C04"]), format!("cell {} is redundant (low == high)", i)));
                 }
                 for c in [n.low, n.high] {
                     let ci = c.index() as usize;
@@ -760,11 +801,11 @@ impl Exec {
                     if ci == 0 || ci >= cap || !st.cell_flags(ci).0 {
                         fails.push((vec!["C04", "C05", "C17"], format!("cell {} has a child {} that is not stored", i, ci)));
                     } else if st.cell_value(ci).variable <= n.variable {
-                        fails.push((vec!["C04"], format!("cell {} (x{}) has child {} with variable x{}", i, n.variable, ci, st.cell_value(ci).variable)));
+                        fails.push((with_blame(blame, vec!["C04"]), format!("cell {} (x{}) has child {} with variable x{}", i, n.variable, ci, st.cell_value(ci).variable)));
                     }
                 }
                 if let Some(j) = triples.insert((n.variable, raw_of(n.low), raw_of(n.high)), i) {
-                    fails.push((vec!["C04", "C17", "C01"], format!("cells {} and {} hold the same triple", j, i)));
+                    fails.push((with_blame(blame, vec!["C04", "C17", "C01"]), format!("cells {} and {} hold the same triple", j, i)));
                 }
             }
             // chains
@@ -957,9 +998,19 @@ impl Exec {
                     }
                 }
             }
+            "vmap" => {
+                // the variable numbers this case uses, in increasing order (table positions 1..n)
+                let vs: Vec<u32> = toks[1..].iter().filter_map(|x| x.parse().ok()).collect();
+                if vs.is_empty() || vs.len() > 6 || vs.len() != toks.len() - 1 || vs.windows(2).any(|w| w[0] >= w[1]) || vs[0] == 0 {
+                    return "bad-op".into();
+                }
+                self.tt = Some(TT::mapped(&vs));
+                "ok".into()
+            }
             t if t.starts_with("eda.") => self.step_eda(toks),
             t if t.starts_with("t.") => self.step_table(toks),
             t if t.starts_with("c.") => self.step_cache(toks),
+            t if t.starts_with("ck.") => self.step_kcache(toks),
             t if t.starts_with("raw.") => self.step_raw(toks),
             _ => {
                 if self.bdd.is_none() {
@@ -970,6 +1021,7 @@ impl Exec {
                     self.since_scan += 1;
                     if self.since_scan >= self.scan_every || toks[0] == "gc" {
                         self.since_scan = 0;
+                        self.scan_op = if self.scan_every == 1 { op_property(toks[0]) } else { None };
                         self.scan(toks[0] == "gc");
                     } else {
                         // cheap part of C06 every step
@@ -1031,7 +1083,7 @@ impl Exec {
         match toks[0] {
             "var" => {
                 let v: u32 = toks[1].parse().unwrap();
-                let e = tt.and_then(|t| if v >= 1 && v <= t.n { Some(t.var(v)) } else { None });
+                let e = tt.and_then(|t| t.pos(v).map(|p| t.var(p)));
                 if v >= 1 {
                     self.pending_spec = Some(Spec::Var(v));
                 }
@@ -1041,9 +1093,9 @@ impl Exec {
                 let v: u32 = toks[1].parse().unwrap();
                 let (lo, hi) = (hh!(toks[2]), hh!(toks[3]));
                 let (rlo, rhi) = (self.env[lo], self.env[hi]);
-                let ordered = v >= 1 && v < self.top_var_of(rlo) && v < self.top_var_of(rhi);
+                let ordered = v >= 1 && (v as u64) < self.top_var_of(rlo) && (v as u64) < self.top_var_of(rhi);
                 let e = match (tt, self.e(lo), self.e(hi)) {
-                    (Some(t), Some(a), Some(b)) if ordered && v <= t.n => Some(t.ite(t.var(v), b, a)),
+                    (Some(t), Some(a), Some(b)) if ordered && t.pos(v).is_some() => Some(t.ite(t.var(t.pos(v).unwrap()), b, a)),
                     _ => None,
                 };
                 if ordered {
@@ -1140,7 +1192,7 @@ impl Exec {
                 vars.sort();
                 let distinct = vars.windows(2).all(|w| w[0] != w[1]) && !vars.contains(&0);
                 let e = tt.and_then(|t| {
-                    if distinct && vars.iter().all(|&v| v <= t.n) {
+                    if distinct && vars.iter().all(|&v| t.pos(v).is_some()) {
                         Some(if is_cube { t.cube(&lits) } else { t.clause(&lits) })
                     } else {
                         None
@@ -1157,7 +1209,7 @@ impl Exec {
                 let b = toks[3] == "1";
                 let rf = self.env[f];
                 let e = match (tt, self.e(f)) {
-                    (Some(t), Some(x)) if v >= 1 => Some(if v <= t.n { t.cof(x, v, b) } else { x }),
+                    (Some(t), Some(x)) if v >= 1 => Some(match t.pos(v) { Some(p) => t.cof(x, p, b), None => x }),
                     _ => None,
                 };
                 if v >= 1 {
@@ -1167,19 +1219,25 @@ impl Exec {
             }
             "substm" | "cofcube" => {
                 let f = hh!(toks[1]);
-                let lits = match Self::lits(&toks[2..]) {
-                    Some(l) => l,
-                    None => return "bad-op".into(),
-                };
-                let rf = self.env[f];
                 let is_m = toks[0] == "substm";
-                let asc = lits.windows(2).all(|w| w[0].unsigned_abs() < w[1].unsigned_abs()) && lits.iter().all(|&l| l != 0);
+                // literals: signed variable numbers; substitute_multi takes u32 variables, so its
+                // tokens may exceed the i32 range that cofactor_cube's literals are limited to
+                let wide: Vec<i64> = match toks[2..].iter().map(|t| t.parse::<i64>().ok()).collect::<Option<Vec<i64>>>() {
+                    Some(l) if l.iter().all(|x| x.unsigned_abs() <= u32::MAX as u64) => l,
+                    _ => return "bad-op".into(),
+                };
+                if !is_m && wide.iter().any(|&x| x < i32::MIN as i64 + 1 || x > i32::MAX as i64) {
+                    return "bad-op".into();
+                }
+                let lits: Vec<(u32, bool)> = wide.iter().map(|&x| (x.unsigned_abs() as u32, x > 0)).collect();
+                let rf = self.env[f];
+                let asc = lits.windows(2).all(|w| w[0].0 < w[1].0) && lits.iter().all(|&l| l.0 != 0);
                 let e = match (tt, self.e(f)) {
                     (Some(t), Some(x)) if asc => {
                         let mut r = x;
-                        for &l in &lits {
-                            if l.unsigned_abs() <= t.n {
-                                r = t.cof(r, l.unsigned_abs(), l > 0);
+                        for &(v, b) in &lits {
+                            if let Some(p) = t.pos(v) {
+                                r = t.cof(r, p, b);
                             }
                         }
                         Some(r)
@@ -1187,14 +1245,15 @@ impl Exec {
                     _ => None,
                 };
                 if asc {
-                    self.pending_spec = Some(Spec::Fix(rf, lits.iter().map(|&l| (l.unsigned_abs(), l > 0)).collect()));
+                    self.pending_spec = Some(Spec::Fix(rf, lits.clone()));
                 }
                 self.produce(&["C08"], e, |m| {
                     if is_m {
-                        let map: HashMap<u32, bool> = lits.iter().map(|&l| (l.unsigned_abs(), l > 0)).collect();
+                        let map: HashMap<u32, bool> = lits.iter().copied().collect();
                         m.substitute_multi(rf, &map)
                     } else {
-                        m.cofactor_cube(rf, &lits)
+                        let cube: Vec<i32> = wide.iter().map(|&x| x as i32).collect();
+                        m.cofactor_cube(rf, &cube)
                     }
                 })
             }
@@ -1203,7 +1262,7 @@ impl Exec {
                 let v: u32 = toks[2].parse().unwrap();
                 let (rf, rg) = (self.env[f], self.env[g]);
                 let e = match (tt, self.e(f), self.e(g)) {
-                    (Some(t), Some(x), Some(y)) if v >= 1 => Some(if v <= t.n { t.compose(x, v, y) } else { x }),
+                    (Some(t), Some(x), Some(y)) if v >= 1 => Some(match t.pos(v) { Some(p) => t.compose(x, p, y), None => x }),
                     _ => None,
                 };
                 if v >= 1 {
@@ -1222,7 +1281,39 @@ impl Exec {
                 self.pending_spec = Some(Spec::Care(rf, rg));
                 self.produce(if is_c { &["C10"] } else { &["C11"] }, e, |m| if is_c { m.constrain(rf, rg) } else { m.restrict(rf, rg) })
             }
-            "expr" => {
+            "expr" | "exprc" => {
+                // `exprc k <tokens>`: the same expression, but evaluated through the closure that
+                // rustc compiled from literal source number k (its own precedence and associativity)
+                let compiled: Option<(usize, [Ref; 4])> = if toks[0] == "exprc" {
+                    let k: usize = match toks.get(1).and_then(|x| x.parse().ok()) {
+                        Some(k) if k < COMPILED_TOKENS.len() => k,
+                        _ => return "bad-op".into(),
+                    };
+                    let pat: Vec<&str> = COMPILED_TOKENS[k].split(' ').collect();
+                    if pat.len() != toks.len() - 2 {
+                        return "bad-op".into();
+                    }
+                    let mut hs = [Ref::ZERO; 4];
+                    for (p, t) in pat.iter().zip(&toks[2..]) {
+                        let slot = match *p {
+                            "a" => 0,
+                            "b" => 1,
+                            "c" => 2,
+                            "d" => 3,
+                            _ => {
+                                if p != t {
+                                    return "bad-op".into();
+                                }
+                                continue;
+                            }
+                        };
+                        hs[slot] = self.env[hh!(t.strip_prefix('h').unwrap_or(""))];
+                    }
+                    Some((k, hs))
+                } else {
+                    None
+                };
+                let toks: Vec<&str> = if compiled.is_some() { toks[1..].to_vec() } else { toks.to_vec() };
                 let parsed = parse_expr(&toks[1..], &self.env);
                 match parsed {
                     Some((val, e_fn)) => {
@@ -1234,9 +1325,10 @@ impl Exec {
                             e_fn
                         };
                         let _ = &e_fn;
-                        self.produce(&["C03"], e, |m| match val {
-                            Val::R(r) => m.eval(r),
-                            Val::E(x) => m.eval(x),
+                        self.produce(&["C03"], e, |m| match (compiled, val) {
+                            (Some((k, hs)), _) => compiled_expr(k, m, hs),
+                            (None, Val::R(r)) => m.eval(r),
+                            (None, Val::E(x)) => m.eval(x),
                         })
                     }
                     None => "bad-op".into(),
@@ -1265,7 +1357,7 @@ impl Exec {
                 match r {
                     Ok((a, b)) => {
                         let (ea, eb) = match (tt, self.e(f)) {
-                            (Some(t), Some(x)) if v >= 1 && v <= t.n => (Some(t.cof(x, v, false)), Some(t.cof(x, v, true))),
+                            (Some(t), Some(x)) if t.pos(v).is_some() => (Some(t.cof(x, t.pos(v).unwrap(), false)), Some(t.cof(x, t.pos(v).unwrap(), true))),
                             _ => (None, None),
                         };
                         self.bind(a, ea, &["C08"]);
@@ -1374,7 +1466,7 @@ impl Exec {
                 match r {
                     Ok(s) => {
                         if let (Some(t), Some(x)) = (tt, self.e(f)) {
-                            if n >= t.n as usize && n - (t.n as usize) < 100 {
+                            if t.is_identity() && n >= t.n as usize && n - (t.n as usize) < 100 {
                                 let want = (x.count_ones() as u128) << (n - t.n as usize);
                                 if s != want.to_string() {
                                     self.fail(&["C13"], format!("sat_count({:#x}, {}) = {}, expected {}", x, n, s, want));
@@ -1406,7 +1498,7 @@ impl Exec {
                                 }
                                 Some(p) => {
                                     let inc = p.windows(2).all(|w| w[0].unsigned_abs() < w[1].unsigned_abs());
-                                    let inr = p.iter().all(|l| *l != 0 && l.unsigned_abs() <= t.n);
+                                    let inr = t.lits_in_range(p);
                                     if !inc || !inr {
                                         self.fail(&["C14"], format!("one_sat literals not strictly increasing: {:?}", p));
                                     } else if x == 0 || t.cube(p) & t.not(x) != 0 {
@@ -1440,7 +1532,7 @@ impl Exec {
                             let mut weighted: u64 = 0;
                             for p in &ps {
                                 let inc = p.windows(2).all(|w| w[0].unsigned_abs() < w[1].unsigned_abs());
-                                let inr = p.iter().all(|l| *l != 0 && l.unsigned_abs() <= t.n);
+                                let inr = t.lits_in_range(p);
                                 if !inc || !inr {
                                     self.fail(&["C14"], format!("path not in strictly increasing variable order: {:?}", p));
                                     ok = false;
@@ -1775,6 +1867,99 @@ impl Exec {
                 let mut s = format!("slots={}", c.num_slots());
                 for (i, k, v) in c.entries() {
                     s.push_str(&format!(" {}:{},{}={}", i, k.0, k.1, v));
+                }
+                s.push_str(&format!(" hits={} faults={} misses={}", c.hits(), c.faults(), c.misses()));
+                s
+            }
+            _ => "bad-op".into(),
+        }
+    }
+
+    // ------------------------------------------------------------------ Cache<OpKey, Ref>
+
+    fn step_kcache(&mut self, toks: &[&str]) -> String {
+        fn rf(raw: u32) -> Ref {
+            Ref::new(raw >> 1, raw & 1 == 1)
+        }
+        // own Szudzik pairing (not the repository's): the slot the entry must land in
+        fn pair(a: u64, b: u64) -> u64 {
+            if a < b {
+                b.wrapping_mul(b).wrapping_add(a)
+            } else {
+                a.wrapping_mul(a).wrapping_add(a).wrapping_add(b)
+            }
+        }
+        let key = |toks: &[&str]| -> Option<((u8, u32, u32, u32), OpKey, u64)> {
+            let f: u32 = toks[2].parse().ok()?;
+            let g: u32 = toks[3].parse().ok()?;
+            let h: u32 = toks[4].parse().ok()?;
+            if f < 2 || g < 2 || (h < 2 && toks[1] == "ite") {
+                return None;
+            }
+            Some(match toks[1] {
+                "ite" => ((0, f, g, h), OpKey::Ite(rf(f), rf(g), rf(h)), pair(pair(f as u64, g as u64), h as u64)),
+                "con" => ((1, f, g, 0), OpKey::Constrain(rf(f), rf(g)), pair(f as u64, g as u64)),
+                "res" => ((2, f, g, 0), OpKey::Restrict(rf(f), rf(g)), pair(f as u64, g as u64)),
+                _ => return None,
+            })
+        };
+        match toks[0] {
+            "ck.new" => {
+                self.kcache = Cache::new(toks[1].parse().unwrap());
+                self.kcache_shadow.clear();
+                self.kcache_lookups = 0;
+                "ok".into()
+            }
+            "ck.insert" => {
+                let (id, k, hash) = match key(toks) {
+                    Some(x) => x,
+                    None => return "bad-op".into(),
+                };
+                let v: u32 = toks[5].parse().unwrap();
+                self.kcache.insert(k, rf(v));
+                let slot = (hash & (self.kcache.num_slots() as u64 - 1)) as usize;
+                self.kcache_shadow.insert(slot, (id, v));
+                "ok".into()
+            }
+            "ck.get" => {
+                let (id, k, hash) = match key(toks) {
+                    Some(x) => x,
+                    None => return "bad-op".into(),
+                };
+                let got = self.kcache.get(&k).copied();
+                self.kcache_lookups += 1;
+                let slot = (hash & (self.kcache.num_slots() as u64 - 1)) as usize;
+                let want = match self.kcache_shadow.get(&slot) {
+                    Some((id2, v)) if *id2 == id => Some(rf(*v)),
+                    _ => None,
+                };
+                if let Some((id2, _)) = self.kcache_shadow.get(&slot) {
+                    self.nontrivial.insert(fnv1a(&format!("ckget {:?} {:?} {}", id, id2, self.kcache.num_slots())));
+                }
+                if got != want {
+                    self.fail(&["C18", "C07"], format!("get({:?}) = {:?}, the last insert on its slot since the last clear says {:?}", k, got, want));
+                }
+                if self.kcache.hits() + self.kcache.misses() != self.kcache_lookups || self.kcache.faults() > self.kcache.misses() {
+                    self.fail(&["C18"], format!("statistics: hits {} misses {} faults {} after {} lookups", self.kcache.hits(), self.kcache.misses(), self.kcache.faults(), self.kcache_lookups));
+                }
+                match got {
+                    Some(v) => format!("some {}", raw_of(v)),
+                    None => "none".into(),
+                }
+            }
+            "ck.clear" => {
+                self.kcache.clear();
+                self.kcache_shadow.clear();
+                if self.kcache.entries().count() != 0 {
+                    self.fail(&["C18"], "clear left an entry".into());
+                }
+                "ok".into()
+            }
+            "ck.dump" => {
+                let c = &self.kcache;
+                let mut s = format!("slots={}", c.num_slots());
+                for (i, k, v) in c.entries() {
+                    s.push_str(&format!(" {}:{}={}", i, show_key(k), raw_of(*v)));
                 }
                 s.push_str(&format!(" hits={} faults={} misses={}", c.hits(), c.faults(), c.misses()));
                 s
@@ -2252,4 +2437,64 @@ pub fn parse_expr(toks: &[&str], env: &[Ref]) -> Option<(Val, EFn)> {
     } else {
         None
     }
+}
+
+
+// ---------------------------------------------------------------------- compiled operator expressions
+
+/// Expressions written literally in Rust source: rustc's own precedence and associativity decide
+/// how they are read. Each comes with the token string the `expr` operation (dynamic interpreter in
+/// this harness, `parseRust` in the model) receives; the two must produce the same handle.
+macro_rules! lits {
+    ($( $toks:literal => |$a:ident, $b:ident, $c:ident, $d:ident| $e:expr ; )*) => {
+        pub const COMPILED_TOKENS: &[&str] = &[ $( $toks ),* ];
+        pub fn compiled_expr(k: usize, bdd: &Bdd, h: [Ref; 4]) -> Ref {
+            let mut i = 0;
+            $(
+                if i == k {
+                    #[allow(unused_variables)]
+                    let ($a, $b, $c, $d) = (h[0], h[1], h[2], h[3]);
+                    return bdd.eval($e);
+                }
+                i += 1;
+            )*
+            let _ = i;
+            unreachable!()
+        }
+    };
+}
+
+lits! {
+    "a + b * c" => |a, b, c, d| a + b * c;
+    "a * b + c" => |a, b, c, d| a * b + c;
+    "a ^ b + c" => |a, b, c, d| a ^ b + c;
+    "a + b ^ c" => |a, b, c, d| a + b ^ c;
+    "a ^ b * c" => |a, b, c, d| a ^ b * c;
+    "a * b ^ c" => |a, b, c, d| a * b ^ c;
+    "- a * b" => |a, b, c, d| -a * b;
+    "a * - b" => |a, b, c, d| a * -b;
+    "- a + b" => |a, b, c, d| -a + b;
+    "a * b * c" => |a, b, c, d| a * b * c;
+    "a + b + c" => |a, b, c, d| a + b + c;
+    "a ^ b ^ c" => |a, b, c, d| a ^ b ^ c;
+    "- - a" => |a, b, c, d| -(-a);
+    "( a + b ) * c" => |a, b, c, d| (a + b) * c;
+    "a * ( b + c )" => |a, b, c, d| a * (b + c);
+    "- ( a + b )" => |a, b, c, d| -(a + b);
+    "- - ( a + b )" => |a, b, c, d| -(-(a + b));
+    "- ( a + b ) * c" => |a, b, c, d| -(a + b) * c;
+    "t a" => |a, b, c, d| Expr::term(a);
+    "- t a" => |a, b, c, d| -Expr::term(a);
+    "- - t a" => |a, b, c, d| -(-Expr::term(a));
+    "t a * b" => |a, b, c, d| Expr::term(a) * b;
+    "a * t b" => |a, b, c, d| a * Expr::term(b);
+    "a ^ b + c * d" => |a, b, c, d| a ^ b + c * d;
+    "a * b + c ^ d" => |a, b, c, d| a * b + c ^ d;
+    "a + b * c ^ d + a" => |a, b, c, d| a + b * c ^ d + a;
+    "- a * - b + - c ^ - d" => |a, b, c, d| -a * -b + -c ^ -d;
+    "( a ^ b ) * ( c + d )" => |a, b, c, d| (a ^ b) * (c + d);
+    "- ( a * b ) + - ( c ^ d ) * a" => |a, b, c, d| -(a * b) + -(c ^ d) * a;
+    "a + ( b * ( c ^ ( d + a ) ) )" => |a, b, c, d| a + (b * (c ^ (d + a)));
+    "- ( - ( a * b ) )" => |a, b, c, d| -(-(a * b));
+    "a * b * c + a * - b * d ^ c" => |a, b, c, d| a * b * c + a * -b * d ^ c;
 }
